@@ -53,7 +53,7 @@ try:
         bd = wt + "/_b"
         r = subprocess.run("cmake -G Ninja -S %s -B %s -DBUILD_TESTS=ON -DCMAKE_BUILD_TYPE=RelWithDebInfo -DCMAKE_CXX_FLAGS=-w >/dev/null 2>&1 && cmake --build %s >/dev/null 2>&1 && cd %s && ./runUnitTests 2>&1 | tail -3" % (wt, bd, bd, bd), shell=True, capture_output=True, text=True)
         print("SUITE:", " ".join(r.stdout.split("\n")[-3:]).strip()[:200])
-    env = dict(os.environ, VERIF_REPO=wt, VERIF_BUILD_ROOT=br, VERIF_SEED=a.seed)
+    env = dict(os.environ, VERIF_REPO=wt, VERIF_BUILD_ROOT=br, VERIF_SEED=a.seed, VERIF_OUT=br + "/out")
     for c in a.checks.split(","):
         p = subprocess.run(["/verif/check", c, a.tier], env=env, capture_output=True, text=True, cwd="/verif")
         keys = re.findall(r"^  key=(\S+) occurrences=(\d+)", p.stdout, re.M)
